@@ -179,7 +179,10 @@ def observe(ctx, cd, label, nsf, dclspc, edits, compile_all):
                     if fcount.get(k, 0) != n or n != 1:
                         fail("%s: operation %s%r declared %d time(s), defined %d time(s)" % (c.NAME, k[0], k[1], n, fcount.get(k, 0)),
                              "uml:%s:%s:%s" % (label, c.NAME, k[0]), file=path,
-                             finding_class="uml:operation-emitted-twice" if (n > 1 and fcount.get(k, 0) == n) else "uml:declaration-definition-mismatch")
+                             finding_class=("uml:declared-and-realised-emitted-twice"      # repaired (K-C19-1): must not come back
+                                            if sum(1 for o in c.OPERATIONS if o.NAME.strip() == k[0] and len(o.PARAMETERS) == len(k[1])) == 1
+                                            else "uml:operation-emitted-twice") if (n > 1 and fcount.get(k, 0) == n)
+                             else "uml:declaration-definition-mismatch")
                 for k, n in fcount.items():
                     if k not in dcount:
                         fail("%s: operation %s%r defined but not declared" % (c.NAME, k[0], k[1]), "uml:%s:%s:%s" % (label, c.NAME, k[0]), file=path,
